@@ -81,6 +81,10 @@ EXPLANATION += (
     ' Round 12: the flatten union runs over the marker table as loaded (R-COVER/flatten-union).'
 )
 
+EXPLANATION += (
+    ' Round 13: keys the tree validator inspects are maintained by flatten and drop_level (R-AGREE/validator-vs-reducers).'
+)
+
 RULE_TEXT = (
     "one obligation per consumer of the tree, per reducer call, per "
     "drop_level(<config>) call site, per flatten rebinding")
